@@ -52,3 +52,13 @@ def path_domain(S, nlp):
         d.append((f"link point offsets strictly increasing: lp{i}", S[f"lp{i}"] > prev))
         prev = S[f"lp{i}"]
     return d
+
+
+def fric_brake_tmpl(p="fb_"):
+    return {"force_max": Sym(p + "force_max"), "ramp_up_time": 0, "ramp_up_coeff": Sym(p + "ramp_up_coeff"), "state": auto_state("FricBrakeState", p + "s_"), "save_interval": None}
+
+
+def slts_tmpl(consist, i=1, nlp=3, points=None):
+    """SpeedLimitTrainSim around a given consist template"""
+    return {"train_id": "", "origs": [], "dests": [], "loco_con": consist, "state": train_state_tmpl(i), "train_res": strap_res_tmpl(), "path_tpc": path_tpc_tmpl(nlp),
+            "braking_points": {"points": points or [], "idx_curr": 0}, "fric_brake": fric_brake_tmpl(), "save_interval": None, "simulation_days": None, "scenario_year": None}
